@@ -444,14 +444,21 @@ func runC02(c *Ctx) {
 					bad = "the host rule is not filed under V4 exactly when its own address (rule.IP, not a converted copy) Is4() and under V6 otherwise: e.g. an IPv4-mapped IPv6 address must stay in the IPv6 group"
 				}
 				// every *HostRule of the lookup result is filed
-				loops := loopsOf(e4.Act.Fn)
-				l := innermostLoop(loops, e4.Call.Block())
-				if bad == "" && (l == nil || e6.Act != e4.Act || l != innermostLoop(loops, e6.Call.Block()) || !onlyExhaustionExit(l) || rangedOver(l) == nil || !rangedOver(l).Full) {
+				// (the appends may sit in a helper: the loop is then the one around its call)
+				loopAct := e4.Act
+				blk4, blk6 := e4.Call.Block(), e6.Call.Block()
+				if innermostLoop(loopsOf(loopAct.Fn), blk4) == nil && e4.Act.Parent != nil {
+					loopAct = s
+					blk4, blk6 = topBlockOf(e4.Act, e4.Call), topBlockOf(e6.Act, e6.Call)
+				}
+				loops := loopsOf(loopAct.Fn)
+				l := innermostLoop(loops, blk4)
+				if bad == "" && (l == nil || e6.Act != e4.Act || l != innermostLoop(loops, blk6) || !onlyExhaustionExit(l) || rangedOver(l) == nil || !rangedOver(l).Full) {
 					bad = "the loop filing host rules is not a complete scan of the lookup result"
 				}
 				// ... and the scanned collection is the lookup result
 				if bad == "" {
-					coll := e4.Act.Env[rangedOver(l).Coll]
+					coll := loopAct.Env[rangedOver(l).Coll]
 					if coll == nil || coll.key != probeRes.key {
 						bad = "the loop filing host rules does not range over the result of the host-table lookup: " + clip(u.Show(coll), 80)
 					}
